@@ -155,6 +155,17 @@ def _run_job(args):
     return res
 
 
+def _finite(o):
+    """strict JSON: non-finite floats become strings"""
+    if isinstance(o, float) and (o != o or o in (float("inf"), float("-inf"))):
+        return repr(o)
+    if isinstance(o, dict):
+        return {k: _finite(v) for k, v in o.items()}
+    if isinstance(o, (list, tuple)):
+        return [_finite(v) for v in o]
+    return o
+
+
 def replay_request():
     """(path, stored violation) when the check was started with --replay <path>"""
     path = os.environ.get("VERIF_REPLAY")
@@ -289,7 +300,7 @@ def finish(pid, results, *, explanation, bound, symbolic, assumptions, source_fi
                 lines.append(f"KNOWN-FINDING: property={pid} {v['key']} — {known[v['key']].get('what', '')}")
             continue
         path = os.path.join(VERIF, "evidence", "replay", f"{pid}_{len(new_violations)}.json")
-        json.dump({"property": pid, **v}, open(path, "w"), indent=1)
+        json.dump(_finite({"property": pid, **v}), open(path, "w"), indent=1)
         new_violations.append(v)
         lines.append(f"VIOLATION property={pid} replay={path}")
         lines.append(f"  {v['key']}: {json.dumps(v['info'])[:600]}")
